@@ -18,7 +18,7 @@ import (
 var e1Owners = map[string][]string{
 	"C01": {"delivery", "flush", "completeness", "fault-send-ok"},
 	"C02": {"crosstalk", "foreign-error", "isolation", "handler-twice"},
-	"C04": {"cancel-hang", "cancel-error", "cancel-later-op", "cancel-peer", "probe"},
+	"C04": {"cancel-hang", "cancel-error", "cancel-later-op", "cancel-peer", "probe", "close-hang"},
 	"C05": {"fault-hang", "fault-closed", "fault-delivery", "panic", "fault-newstream", "fault-send-ok"},
 	"C06": {"probe", "stuck-connection"},
 	"C07": {"wire", "concurrent-io", "wire-trailing"},
@@ -563,8 +563,10 @@ func (x *e1) serverBlind() bool {
 		return false
 	}
 	// an error returned to one of the server's own transport calls is noticed
+	// (an error attached to data is reported only after the data has been
+	// handed over, which is exactly what the parked reader is still doing)
 	for _, f := range x.sep.Faults {
-		if f.Fired && f.Kind != "peer-close" {
+		if f.Fired && f.Kind != "peer-close" && f.Kind != "read-err-data" {
 			return false
 		}
 	}
@@ -900,7 +902,16 @@ func (x *e1) checkFaultContainment() {
 	}
 	_, lateServe := x.did["serve-cancel"]
 	_, trClose := x.did["tr-close"]
-	if fault || x.closeStep > 0 || trClose || !lateServe {
+	clientFault := false
+	for _, f := range x.cep.Faults {
+		if f.Fired && f.Kind != "peer-close" {
+			clientFault = true
+		}
+	}
+	// if only the server's endpoint failed and the server cannot notice (its reader is
+	// parked behind an unread message), nothing tells the client either
+	blindOnly := x.serverBlind() && !clientFault && x.closeStep == 0 && !trClose
+	if (fault || x.closeStep > 0 || trClose || !lateServe) && !blindOnly {
 		if !connClosed(x.conn) {
 			o := "fault-closed"
 			if !fault {
